@@ -270,9 +270,29 @@ def digest(form) -> str:
 # --------------------------------------------------------------------------
 # child program
 
+def advance_tau(offset):
+    """An unrelated history: fresh type variables are printed until the running number in
+    the names of unresolved variables stands just below a power of ten (the names printed
+    next differ in length: "τ9", "τ10").  Only the running numbers may depend on this."""
+    import re
+    import transforge.type as T
+    try:
+        n = int(re.sub(r"\D", "", T.TypeVariable().text()) or 0)
+    except Exception:       # noqa: BLE001
+        return
+    target = 10
+    while target - 1 - offset <= n:
+        target *= 10
+    if target > 100000:
+        return
+    for _ in range(target - 2 - offset - n):
+        T.TypeVariable().text()
+
+
 def child(job):
     """job = {"langs": [{"spec":..., "cases": [...]}], "junk": n}
-    Three passes per language:
+    Passes per language (plus tau0/tau1: as `again`, after an unrelated history that brings
+    the running number of variable names just below a power of ten):
       first   every case once, in order, on a freshly built language
       again   every case once more, in reverse order, on the SAME language object
               (each case now comes after unrelated graphs from the same language)
@@ -280,7 +300,7 @@ def child(job):
     out = []
     junk = [object() for _ in range(job.get("junk", 0))]       # shifts the allocation pattern
     for lj in job["langs"]:
-        res = {"first": [], "again": [], "rebuilt": [], "canon": None, "lang_error": None}
+        res = {"first": [], "again": [], "tau0": [], "tau1": [], "rebuilt": [], "canon": None, "lang_error": None}
         try:
             lang, _ = build_language(lj["spec"])
         except Exception as e:      # noqa: BLE001
@@ -292,6 +312,16 @@ def child(job):
         res["first"] = [run_case(lang, c) for c in cases]
         keep = [object() for _ in range(97)]
         res["again"] = [run_case(lang, c) for c in reversed(cases)][::-1]
+        # ... and with the running number of variable names brought just below a power of ten
+        # (for the cases whose labels print constraints of at least two unresolved variables -
+        # a process has only a handful of such boundaries to spend; the others repeat `again`)
+        cand = [i for i, r in enumerate(res["first"]) if r.get("status") == "ok" and any(
+            t[2].startswith('"') and "τ#2" in t[2] and "[" in t[2] for t in r["form"])]
+        for name, off in (("tau0", 0), ("tau1", 1)):
+            res[name] = list(res["again"])
+            for i in cand:
+                advance_tau(off)
+                res[name][i] = run_case(lang, cases[i])
         res["canon_again"] = canon_of(lang)
         lang2, _ = build_language(lj["spec"])
         res["rebuilt"] = [run_case(lang2, c) for c in cases]
